@@ -21,6 +21,7 @@ typedef struct {
 
 typedef struct {
     uint64_t looping_start_time;
+    uint64_t last_time_called;              // last time recv_events() returned (start of current idling time)
     uint64_t idle_time;
     uint64_t recv_msgs;
     size_t running_modules;
